@@ -32,6 +32,134 @@ where
         Sx::L(v.iter().map(|x| Sx::N(*x as u128)).collect())
     }
 
+    // ---- op bodies: the calls into the real library, shared by the generator and the replay mode
+
+    pub fn op_gather(a: Vec<usize>, i: Vec<usize>) -> Sx {
+        ok(l(&K::unidx(&K::idx(a).gather(K::idx(i).get_range(..)))))
+    }
+    /// the same at the second element type (u64)
+    pub fn op_gather64(xs64: Vec<u64>, i2: Vec<usize>) -> Sx {
+        ok(Self::l64(&K::unarr64(&K::arr64(xs64).gather(K::idx(i2).get_range(..)))))
+    }
+    pub fn op_get(a: Vec<usize>, i: usize) -> Sx {
+        ok(n(K::idx(a).get(i)))
+    }
+    pub fn op_to_range(len: usize, form: usize, a: usize, b: usize) -> Sx {
+        let xs = K::idx(vec![0; len]);
+        let r = match form {
+            0 => xs.to_range(..),
+            1 => xs.to_range(a..),
+            2 => xs.to_range(..b),
+            3 => xs.to_range(a..b),
+            4 => xs.to_range(..=b),
+            _ => xs.to_range(a..=b),
+        };
+        ok(pair(n(r.start), n(r.end)))
+    }
+    pub fn op_get_range(ys: Vec<usize>, form: usize, a: usize, b: usize) -> Sx {
+        let arr = K::idx(ys);
+        let s = match form {
+            0 => arr.get_range(..),
+            1 => arr.get_range(a..),
+            2 => arr.get_range(..b),
+            3 => arr.get_range(a..b),
+            4 => arr.get_range(..=b),
+            _ => arr.get_range(a..=b),
+        };
+        ok(l(&K::unidx(&K::Index::from_slice(s))))
+    }
+    pub fn op_set_range(ys: Vec<usize>, form: usize, a: usize, b: usize, vv: Vec<usize>) -> Sx {
+        let mut arr = K::idx(ys);
+        let val: K::Type<usize> = K::idx(vv).into();
+        match form {
+            0 => arr.set_range(.., &val),
+            1 => arr.set_range(a.., &val),
+            2 => arr.set_range(..b, &val),
+            3 => arr.set_range(a..b, &val),
+            4 => arr.set_range(..=b, &val),
+            _ => arr.set_range(a..=b, &val),
+        };
+        ok(l(&K::unidx(&arr)))
+    }
+    pub fn op_concatenate(x: Vec<usize>, y: Vec<usize>) -> Sx {
+        ok(l(&K::unidx(&K::idx(x).concatenate(&K::idx(y)))))
+    }
+    pub fn op_fill(x: usize, k: usize) -> Sx {
+        ok(l(&K::unidx(&K::Index::fill(x, k))))
+    }
+    pub fn op_scatter(a: Vec<usize>, i: Vec<usize>, size: usize) -> Sx {
+        ok(l(&K::unidx(&K::idx(a).scatter(K::idx(i).get_range(..), size))))
+    }
+    pub fn op_scatter_assign(a: Vec<usize>, i: Vec<usize>, v: Vec<usize>) -> Sx {
+        let mut arr = K::idx(a);
+        arr.scatter_assign(&K::idx(i), K::idx(v));
+        ok(l(&K::unidx(&arr)))
+    }
+    pub fn op_scatter_assign_constant(a: Vec<usize>, i: Vec<usize>, x: usize) -> Sx {
+        let mut arr = K::idx(a);
+        arr.scatter_assign_constant(&K::idx(i), x);
+        ok(l(&K::unidx(&arr)))
+    }
+    pub fn op_scatter_sub_assign(a: Vec<usize>, i: Vec<usize>, v: Vec<usize>) -> Sx {
+        let mut arr: K::Type<usize> = K::arr(a);
+        arr.scatter_sub_assign(&K::idx(i), &K::idx(v));
+        ok(l(&K::unarr(&arr)))
+    }
+    pub fn op_arange(a: usize, b: usize) -> Sx {
+        ok(l(&K::unidx(&K::Index::arange(&a, &b))))
+    }
+    pub fn op_cumulative_sum(a: Vec<usize>) -> Sx {
+        ok(l(&K::unidx(&K::idx(a).cumulative_sum())))
+    }
+    pub fn op_sum(a: Vec<usize>) -> Sx {
+        ok(n(K::idx(a).sum()))
+    }
+    pub fn op_repeat(a: Vec<usize>, b: Vec<usize>) -> Sx {
+        ok(l(&K::unidx(&K::idx(a).repeat(K::idx(b).get_range(..)))))
+    }
+    pub fn op_quot_rem(a: Vec<usize>, d: usize) -> Sx {
+        let (q, r) = K::idx(a).quot_rem(d);
+        ok(pair(l(&K::unidx(&q)), l(&K::unidx(&r))))
+    }
+    pub fn op_mul_constant_add(a: Vec<usize>, cst: usize, b: Vec<usize>) -> Sx {
+        ok(l(&K::unidx(&K::idx(a).mul_constant_add(cst, &K::idx(b)))))
+    }
+    pub fn op_add(a: Vec<usize>, b: Vec<usize>) -> Sx {
+        ok(l(&K::unidx(&(K::idx(a) + K::idx(b)))))
+    }
+    pub fn op_sub(a: Vec<usize>, b: Vec<usize>) -> Sx {
+        ok(l(&K::unidx(&(K::idx(a) - K::idx(b)))))
+    }
+    pub fn op_bincount(a: Vec<usize>, size: usize) -> Sx {
+        ok(l(&K::unidx(&K::idx(a).bincount(size))))
+    }
+    pub fn op_zero(a: Vec<usize>) -> Sx {
+        ok(l(&K::unidx(&K::idx(a).zero())))
+    }
+    pub fn op_max(a: Vec<usize>) -> Sx {
+        ok(optval(K::idx(a).max().map(n)))
+    }
+    pub fn op_segmented_sum(a: Vec<usize>, b: Vec<usize>) -> Sx {
+        ok(l(&K::unidx(&K::idx(a).segmented_sum(&K::idx(b)))))
+    }
+    pub fn op_segmented_arange(a: Vec<usize>) -> Sx {
+        ok(l(&K::unidx(&K::idx(a).segmented_arange())))
+    }
+    pub fn op_argsort(a: Vec<usize>) -> Sx {
+        ok(l(&K::unidx(&K::idx(a).argsort())))
+    }
+    pub fn op_sort_by(v: Vec<usize>, k: Vec<usize>) -> Sx {
+        ok(l(&K::unidx(&K::idx(v).sort_by(&K::idx(k)))))
+    }
+    pub fn op_sparse_bincount(a: Vec<usize>) -> Sx {
+        let (k, cnt) = K::idx(a).sparse_bincount();
+        ok(pair(l(&K::unidx(&k)), l(&K::unidx(&cnt))))
+    }
+    pub fn op_connected_components(a: Vec<usize>, b: Vec<usize>, nn: usize) -> Sx {
+        let (lab, k) = K::Index::connected_components(&K::idx(a), &K::idx(b), nn);
+        ok(pair(l(&K::unidx(&lab)), n(k)))
+    }
+
     /// an index list mostly inside `0..len`, sometimes out of range by one or more
     fn idx_list(c: &mut Ctx, max_len: usize, len: usize) -> Vec<usize> {
         let k = c.rng.size(max_len);
@@ -60,39 +188,24 @@ where
                     let xs = gen::list_below(&mut c.rng, m, 9);
                     let idx = Self::idx_list(c, m + 2, xs.len());
                     let (a, i) = (xs.clone(), idx.clone());
-                    c.emit("prim.gather", vec![l(&xs), l(&idx)], move || {
-                        ok(l(&K::unidx(&K::idx(a).gather(K::idx(i).get_range(..)))))
-                    });
+                    c.emit("prim.gather", vec![l(&xs), l(&idx)], move || Self::op_gather(a, i));
                     // the same at a second element type (u64 carrying a pair a*256+b)
                     let xs64: Vec<u64> = xs.iter().map(|x| (*x as u64) * 256 + 7).collect();
                     let xs64n: Vec<usize> = xs64.iter().map(|x| *x as usize).collect();
                     let i2 = idx.clone();
-                    c.emit("prim.gather", vec![l(&xs64n), l(&idx)], move || {
-                        ok(Self::l64(&K::unarr64(&K::arr64(xs64).gather(K::idx(i2).get_range(..)))))
-                    });
+                    c.emit("prim.gather", vec![l(&xs64n), l(&idx)], move || Self::op_gather64(xs64, i2));
                 }
                 1 => {
                     let xs = gen::list_below(&mut c.rng, m, 9);
                     let i = c.rng.range(0, xs.len() + 1);
                     let a = xs.clone();
-                    c.emit("prim.get", vec![l(&xs), n(i)], move || ok(n(K::idx(a).get(i))));
+                    c.emit("prim.get", vec![l(&xs), n(i)], move || Self::op_get(a, i));
                 }
                 2 => {
                     let len = c.rng.size(m);
                     let form = c.rng.below(6);
                     let (a, b) = (c.rng.range(0, len + 1), c.rng.range(0, len + 1));
-                    let xs = K::idx(vec![0; len]);
-                    c.emit("prim.to_range", vec![n(len), range_sx(form, a, b)], move || {
-                        let r = match form {
-                            0 => xs.to_range(..),
-                            1 => xs.to_range(a..),
-                            2 => xs.to_range(..b),
-                            3 => xs.to_range(a..b),
-                            4 => xs.to_range(..=b),
-                            _ => xs.to_range(a..=b),
-                        };
-                        ok(pair(n(r.start), n(r.end)))
-                    });
+                    c.emit("prim.to_range", vec![n(len), range_sx(form, a, b)], move || Self::op_to_range(len, form, a, b));
                 }
                 3 => {
                     let xs = gen::list_below(&mut c.rng, m, 9);
@@ -103,18 +216,7 @@ where
                         std::mem::swap(&mut a, &mut b);
                     }
                     let ys = xs.clone();
-                    c.emit("prim.get_range", vec![l(&xs), range_sx(form, a, b)], move || {
-                        let arr = K::idx(ys);
-                        let s = match form {
-                            0 => arr.get_range(..),
-                            1 => arr.get_range(a..),
-                            2 => arr.get_range(..b),
-                            3 => arr.get_range(a..b),
-                            4 => arr.get_range(..=b),
-                            _ => arr.get_range(a..=b),
-                        };
-                        ok(l(&K::unidx(&K::Index::from_slice(s))))
-                    });
+                    c.emit("prim.get_range", vec![l(&xs), range_sx(form, a, b)], move || Self::op_get_range(ys, form, a, b));
                 }
                 4 => {
                     let xs = gen::list_below(&mut c.rng, m, 9);
@@ -136,32 +238,18 @@ where
                     let vlen = if c.rng.chance(1, 6) { want + 1 } else { want };
                     let v = c.rng.vec_below(vlen, 9);
                     let (ys, vv) = (xs.clone(), v.clone());
-                    c.emit("prim.set_range", vec![l(&xs), range_sx(form, a, b), l(&v)], move || {
-                        let mut arr = K::idx(ys);
-                        let val: K::Type<usize> = K::idx(vv).into();
-                        match form {
-                            0 => arr.set_range(.., &val),
-                            1 => arr.set_range(a.., &val),
-                            2 => arr.set_range(..b, &val),
-                            3 => arr.set_range(a..b, &val),
-                            4 => arr.set_range(..=b, &val),
-                            _ => arr.set_range(a..=b, &val),
-                        };
-                        ok(l(&K::unidx(&arr)))
-                    });
+                    c.emit("prim.set_range", vec![l(&xs), range_sx(form, a, b), l(&v)], move || Self::op_set_range(ys, form, a, b, vv));
                 }
                 5 => {
                     let a = gen::list_below(&mut c.rng, m, 9);
                     let b = gen::list_below(&mut c.rng, m, 9);
                     let (x, y) = (a.clone(), b.clone());
-                    c.emit("prim.concatenate", vec![l(&a), l(&b)], move || {
-                        ok(l(&K::unidx(&K::idx(x).concatenate(&K::idx(y)))))
-                    });
+                    c.emit("prim.concatenate", vec![l(&a), l(&b)], move || Self::op_concatenate(x, y));
                 }
                 6 => {
                     let x = c.rng.below(9);
                     let k = c.rng.size(m);
-                    c.emit("prim.fill", vec![n(x), n(k)], move || ok(l(&K::unidx(&K::Index::fill(x, k)))));
+                    c.emit("prim.fill", vec![n(x), n(k)], move || Self::op_fill(x, k));
                 }
                 7 => {
                     let k = c.rng.size(m);
@@ -182,9 +270,7 @@ where
                         c.knob("prim:scatter-empty-source");
                     }
                     let (a, i) = (xs.clone(), idx.clone());
-                    c.emit("prim.scatter", vec![l(&xs), l(&idx), n(size)], move || {
-                        ok(l(&K::unidx(&K::idx(a).scatter(K::idx(i).get_range(..), size))))
-                    });
+                    c.emit("prim.scatter", vec![l(&xs), l(&idx), n(size)], move || Self::op_scatter(a, i, size));
                 }
                 8 => {
                     let me = gen::list_below(&mut c.rng, m, 9);
@@ -192,22 +278,14 @@ where
                     let dv = c.rng.range(0, 2);
                     let vals = c.rng.vec_below((ixs.len() + dv).saturating_sub(1), 9);
                     let (a, i, v) = (me.clone(), ixs.clone(), vals.clone());
-                    c.emit("prim.scatter_assign", vec![l(&me), l(&ixs), l(&vals)], move || {
-                        let mut arr = K::idx(a);
-                        arr.scatter_assign(&K::idx(i), K::idx(v));
-                        ok(l(&K::unidx(&arr)))
-                    });
+                    c.emit("prim.scatter_assign", vec![l(&me), l(&ixs), l(&vals)], move || Self::op_scatter_assign(a, i, v));
                 }
                 9 => {
                     let me = gen::list_below(&mut c.rng, m, 9);
                     let ixs = Self::idx_list(c, m, me.len());
                     let x = c.rng.below(9);
                     let (a, i) = (me.clone(), ixs.clone());
-                    c.emit("prim.scatter_assign_constant", vec![l(&me), l(&ixs), n(x)], move || {
-                        let mut arr = K::idx(a);
-                        arr.scatter_assign_constant(&K::idx(i), x);
-                        ok(l(&K::unidx(&arr)))
-                    });
+                    c.emit("prim.scatter_assign_constant", vec![l(&me), l(&ixs), n(x)], move || Self::op_scatter_assign_constant(a, i, x));
                 }
                 10 => {
                     let me = gen::list_below(&mut c.rng, m, 6);
@@ -215,41 +293,32 @@ where
                     // mostly small subtrahends so that underflow is the exception
                     let rhs: Vec<usize> = ixs.iter().map(|_| c.rng.below(3)).collect();
                     let (a, i, v) = (me.clone(), ixs.clone(), rhs.clone());
-                    c.emit("prim.scatter_sub_assign", vec![l(&me), l(&ixs), l(&rhs)], move || {
-                        let mut arr: K::Type<usize> = K::arr(a);
-                        arr.scatter_sub_assign(&K::idx(i), &K::idx(v));
-                        ok(l(&K::unarr(&arr)))
-                    });
+                    c.emit("prim.scatter_sub_assign", vec![l(&me), l(&ixs), l(&rhs)], move || Self::op_scatter_sub_assign(a, i, v));
                 }
                 11 => {
                     let a = c.rng.below(m);
                     let b = if c.rng.chance(1, 8) { a.saturating_sub(1) } else { a + c.rng.size(m) };
-                    c.emit("prim.arange", vec![n(a), n(b)], move || ok(l(&K::unidx(&K::Index::arange(&a, &b)))));
+                    c.emit("prim.arange", vec![n(a), n(b)], move || Self::op_arange(a, b));
                 }
                 12 => {
                     let xs = gen::list_below(&mut c.rng, m, 9);
                     let a = xs.clone();
-                    c.emit("prim.cumulative_sum", vec![l(&xs)], move || ok(l(&K::unidx(&K::idx(a).cumulative_sum()))));
+                    c.emit("prim.cumulative_sum", vec![l(&xs)], move || Self::op_cumulative_sum(a));
                     let a = xs.clone();
-                    c.emit("prim.sum", vec![l(&xs)], move || ok(n(K::idx(a).sum())));
+                    c.emit("prim.sum", vec![l(&xs)], move || Self::op_sum(a));
                 }
                 13 => {
                     let x = gen::list_below(&mut c.rng, m, 9);
                     let klen = if c.rng.chance(1, 8) { x.len() + 1 } else { x.len() };
                     let k = c.rng.vec_below(klen, 4);
                     let (a, b) = (k.clone(), x.clone());
-                    c.emit("prim.repeat", vec![l(&k), l(&x)], move || {
-                        ok(l(&K::unidx(&K::idx(a).repeat(K::idx(b).get_range(..)))))
-                    });
+                    c.emit("prim.repeat", vec![l(&k), l(&x)], move || Self::op_repeat(a, b));
                 }
                 14 => {
                     let xs = gen::list_below(&mut c.rng, m, 50);
                     let d = if c.rng.chance(1, 10) { 0 } else { c.rng.range(1, 7) };
                     let a = xs.clone();
-                    c.emit("prim.quot_rem", vec![l(&xs), n(d)], move || {
-                        let (q, r) = K::idx(a).quot_rem(d);
-                        ok(pair(l(&K::unidx(&q)), l(&K::unidx(&r))))
-                    });
+                    c.emit("prim.quot_rem", vec![l(&xs), n(d)], move || Self::op_quot_rem(a, d));
                 }
                 15 => {
                     let xs = gen::list_below(&mut c.rng, m, 9);
@@ -257,33 +326,31 @@ where
                     let ys = c.rng.vec_below(ylen, 9);
                     let cst = c.rng.below(6);
                     let (a, b) = (xs.clone(), ys.clone());
-                    c.emit("prim.mul_constant_add", vec![l(&xs), n(cst), l(&ys)], move || {
-                        ok(l(&K::unidx(&K::idx(a).mul_constant_add(cst, &K::idx(b)))))
-                    });
+                    c.emit("prim.mul_constant_add", vec![l(&xs), n(cst), l(&ys)], move || Self::op_mul_constant_add(a, cst, b));
                 }
                 16 => {
                     let xs = gen::list_below(&mut c.rng, m, 9);
                     let ylen = if c.rng.chance(1, 8) { xs.len() + 1 } else { xs.len() };
                     let ys = c.rng.vec_below(ylen, 9);
                     let (a, b) = (xs.clone(), ys.clone());
-                    c.emit("prim.add", vec![l(&xs), l(&ys)], move || ok(l(&K::unidx(&(K::idx(a) + K::idx(b))))));
+                    c.emit("prim.add", vec![l(&xs), l(&ys)], move || Self::op_add(a, b));
                     // sub: mostly ys ≤ xs pointwise
                     let ys2: Vec<usize> = xs.iter().map(|x| if c.rng.chance(1, 10) { x + 1 } else { c.rng.range(0, *x) }).collect();
                     let (a, b) = (xs.clone(), ys2.clone());
-                    c.emit("prim.sub", vec![l(&xs), l(&ys2)], move || ok(l(&K::unidx(&(K::idx(a) - K::idx(b))))));
+                    c.emit("prim.sub", vec![l(&xs), l(&ys2)], move || Self::op_sub(a, b));
                 }
                 17 => {
                     let size = c.rng.range(0, m);
                     let xs = Self::idx_list(c, m + 3, size);
                     let a = xs.clone();
-                    c.emit("prim.bincount", vec![l(&xs), n(size)], move || ok(l(&K::unidx(&K::idx(a).bincount(size)))));
+                    c.emit("prim.bincount", vec![l(&xs), n(size)], move || Self::op_bincount(a, size));
                 }
                 18 => {
                     let xs = gen::list_below(&mut c.rng, m + 2, 3);
                     let a = xs.clone();
-                    c.emit("prim.zero", vec![l(&xs)], move || ok(l(&K::unidx(&K::idx(a).zero()))));
+                    c.emit("prim.zero", vec![l(&xs)], move || Self::op_zero(a));
                     let a = xs.clone();
-                    c.emit("prim.max", vec![l(&xs)], move || ok(optval(K::idx(a).max().map(n))));
+                    c.emit("prim.max", vec![l(&xs)], move || Self::op_max(a));
                 }
                 19 => {
                     let sizes = gen::list_below(&mut c.rng, m, 4);
@@ -295,31 +362,26 @@ where
                     };
                     let x = c.rng.vec_below(xlen, 9);
                     let (a, b) = (sizes.clone(), x.clone());
-                    c.emit("prim.segmented_sum", vec![l(&sizes), l(&x)], move || {
-                        ok(l(&K::unidx(&K::idx(a).segmented_sum(&K::idx(b)))))
-                    });
+                    c.emit("prim.segmented_sum", vec![l(&sizes), l(&x)], move || Self::op_segmented_sum(a, b));
                 }
                 20 => {
                     let sizes = gen::list_below(&mut c.rng, m, 5);
                     let a = sizes.clone();
-                    c.emit("prim.segmented_arange", vec![l(&sizes)], move || ok(l(&K::unidx(&K::idx(a).segmented_arange()))));
+                    c.emit("prim.segmented_arange", vec![l(&sizes)], move || Self::op_segmented_arange(a));
                 }
                 21 | 22 => {
                     // few distinct keys: ties are the interesting case
                     let xs = gen::list_below(&mut c.rng, m + 4, 4);
                     let a = xs.clone();
-                    c.emit("prim.argsort", vec![l(&xs)], move || ok(l(&K::unidx(&K::idx(a).argsort()))));
+                    c.emit("prim.argsort", vec![l(&xs)], move || Self::op_argsort(a));
                     let vals = c.rng.vec_below(xs.len(), 20);
                     let (v, k) = (vals.clone(), xs.clone());
-                    c.emit("prim.sort_by", vec![l(&vals), l(&xs)], move || ok(l(&K::unidx(&K::idx(v).sort_by(&K::idx(k))))));
+                    c.emit("prim.sort_by", vec![l(&vals), l(&xs)], move || Self::op_sort_by(v, k));
                 }
                 23 | 24 => {
                     let xs = gen::list_below(&mut c.rng, m + 4, 5);
                     let a = xs.clone();
-                    c.emit("prim.sparse_bincount", vec![l(&xs)], move || {
-                        let (k, cnt) = K::idx(a).sparse_bincount();
-                        ok(pair(l(&K::unidx(&k)), l(&K::unidx(&cnt))))
-                    });
+                    c.emit("prim.sparse_bincount", vec![l(&xs)], move || Self::op_sparse_bincount(a));
                 }
                 _ => {
                     let nn = c.rng.range(0, m + 2);
@@ -333,10 +395,7 @@ where
                         c.knob("prim:cc-self-loop");
                     }
                     let (a, b) = (s.clone(), t.clone());
-                    c.emit("prim.connected_components", vec![l(&s), l(&t), n(nn)], move || {
-                        let (lab, k) = K::Index::connected_components(&K::idx(a), &K::idx(b), nn);
-                        ok(pair(l(&K::unidx(&lab)), n(k)))
-                    });
+                    c.emit("prim.connected_components", vec![l(&s), l(&t), n(nn)], move || Self::op_connected_components(a, b, nn));
                 }
             }
         }
